@@ -184,6 +184,7 @@ def createDataArray (s : Store) (blk : ObjId) (name type id created dtype shape 
   | .ok () =>
   if (blkFindKey s blk "A" name).isSome then (s, .error .duplicateName) else
   if !dtypeStorable dtype then (s, .error .stdInvalidArgument) else
+  if shape == "[]" then (s, .error .invalidRank) else          -- 0-dimensional data is refused before anything is created
   match createInBlock s blk "A" name type id created with
   | (s, .error e) => (s, .error e)
   | (s, .ok g) => (((s.setAttr g "ds:dtype" dtype).setAttr g "ds:shape" shape), .ok g)
